@@ -1080,6 +1080,7 @@ func (c *fn) asTargetType(target ast.Expr) string {
 }
 
 func init() {
+	goLibCalls["reflect.DeepEqual"] = deepEqualCall
 	goLibCalls["errors.Is"] = func(c *fn, call *ast.CallExpr, _ ast.Expr) cx {
 		name, ok := c.sentinel(call.Args[1])
 		if !ok {
@@ -1293,4 +1294,161 @@ func (c *fn) localErrIdentity(e ast.Expr) (string, bool) {
 		id.Name, c.g.L.pos(o.Pos(), c.pkg)))
 	c.g.note(c.fi.label + ": the error held by local " + id.Name + " has an identity of its own (option LocalErrorIdentity): comparisons with it assume that no other equal error exists")
 	return name + "#" + id.Name, true
+}
+
+
+// ---------- reflect.DeepEqual ----------
+
+// deepEqualCall: reflect.DeepEqual(x, G) with G a package-level variable that is never assigned and
+// whose initialiser gives every map / slice inside it a non-empty literal: then the comparison never
+// depends on the difference between nil and empty, which the translation does not keep.
+func deepEqualCall(c *fn, call *ast.CallExpr, _ ast.Expr) cx {
+	if len(call.Args) != 2 {
+		c.fail(call, "reflect.DeepEqual with %d arguments", len(call.Args))
+	}
+	a, b := call.Args[0], call.Args[1]
+	gv, x, gx := c.globalIdent(b), a, b
+	if gv == nil {
+		gv, x, gx = c.globalIdent(a), b, a
+	}
+	if gv == nil {
+		c.fail(call, "reflect.DeepEqual is only supported against a package-level variable (whose maps and slices are non-empty literals)")
+	}
+	if !types.Identical(c.typeOf(x), resolve(gv.Type(), nil)) {
+		c.fail(call, "reflect.DeepEqual of values of different static types (%s, %s)", types.TypeString(c.typeOf(x), nil), types.TypeString(gv.Type(), nil))
+	}
+	path := gv.Pkg().Path()
+	c.g.L.scan(path)
+	vd := c.g.L.vars[path+"."+gv.Name()]
+	if vd == nil || len(vd.spec.Values) != len(vd.spec.Names) {
+		c.fail(call, "reflect.DeepEqual: the initialiser of %s is not available", gv.Name())
+	}
+	if c.g.L.mutated[path+"."+gv.Name()] {
+		c.fail(call, "reflect.DeepEqual: %s is assigned somewhere in its package", gv.Name())
+	}
+	if why := deepSafeInit(vd.pkg.TypesInfo, unparen(vd.spec.Values[vd.index])); why != "" {
+		c.fail(call, "reflect.DeepEqual against %s: %s (nil and empty maps / slices are one value in the translation)", gv.Name(), why)
+	}
+	eq := c.g.deepEqb(c.typeOf(x), c.sub, map[string]bool{})
+	c.g.note("reflect.DeepEqual(x, " + gv.Pkg().Name() + "." + gv.Name() + ") compares field by field; it is exact because every map and slice inside " + gv.Name() + " is a non-empty literal")
+	return c.lift([]cx{c.expr(x), c.expr(gx)}, func(v []string) string { return "(" + eq + " " + v[0] + " " + v[1] + ")" })
+}
+
+// deepSafeInit: "" when the expression is built from composite literals in which every map / slice is a
+// non-empty literal and every field of map / slice / pointer / struct type is given explicitly.
+func deepSafeInit(info *types.Info, e ast.Expr) string {
+	e = unparen(e)
+	if u, ok := e.(*ast.UnaryExpr); ok && u.Op == token.AND {
+		e = unparen(u.X)
+	}
+	lit, ok := e.(*ast.CompositeLit)
+	if !ok {
+		if tv, ok := info.Types[e]; ok && tv.Value != nil {
+			return "" // a constant
+		}
+		if t := info.TypeOf(e); t != nil {
+			switch t.Underlying().(type) {
+			case *types.Basic:
+				return ""
+			}
+		}
+		return "a part of its initialiser is not a composite literal"
+	}
+	t := info.TypeOf(lit)
+	if t == nil {
+		return "untyped literal"
+	}
+	switch u := t.Underlying().(type) {
+	case *types.Struct:
+		given := map[string]bool{}
+		for i, el := range lit.Elts {
+			name := ""
+			val := el
+			if kv, ok := el.(*ast.KeyValueExpr); ok {
+				name = kv.Key.(*ast.Ident).Name
+				val = kv.Value
+			} else if i < u.NumFields() {
+				name = u.Field(i).Name()
+			}
+			given[name] = true
+			if why := deepSafeInit(info, val); why != "" {
+				return why
+			}
+		}
+		for i := 0; i < u.NumFields(); i++ {
+			f := u.Field(i)
+			if given[f.Name()] {
+				continue
+			}
+			switch f.Type().Underlying().(type) {
+			case *types.Basic:
+			default:
+				return "field " + f.Name() + " is left at its zero value"
+			}
+		}
+		return ""
+	case *types.Map, *types.Slice, *types.Array:
+		if len(lit.Elts) == 0 {
+			return "it contains an empty map / slice literal"
+		}
+		for _, el := range lit.Elts {
+			if kv, ok := el.(*ast.KeyValueExpr); ok {
+				if _, isLit := unparen(kv.Key).(*ast.CompositeLit); isLit {
+					if why := deepSafeInit(info, kv.Key); why != "" {
+						return why
+					}
+				}
+				el = kv.Value
+			}
+			if why := deepSafeInit(info, el); why != "" {
+				return why
+			}
+		}
+		return ""
+	}
+	return "unsupported literal type"
+}
+
+// deepEqb: the Coq function comparing two values of type t field by field.
+func (g *gen) deepEqb(t types.Type, sub tsubst, busy map[string]bool) string {
+	t = resolve(t, sub)
+	switch g.kind(t, sub) {
+	case kString:
+		return "String.eqb"
+	case kInt:
+		return "Z.eqb"
+	case kBool:
+		return "Bool.eqb"
+	case kPtr:
+		return "(ptr_deep_eqb " + g.deepEqb(t.(*types.Pointer).Elem(), sub, busy) + ")"
+	case kSlice:
+		return "(list_deep_eqb " + g.deepEqb(elemOf(t), sub, busy) + ")"
+	case kMap:
+		m := t.Underlying().(*types.Map)
+		return "(map_deep_eqb " + g.eqbFor(m.Key(), sub) + " " + g.deepEqb(m.Elem(), sub, busy) + ")"
+	case kStruct:
+		n := t.(*types.Named)
+		key := namedPath(n)
+		if busy[key] {
+			g.fail("reflect.DeepEqual on the recursive type %s", key)
+		}
+		busy[key] = true
+		defer delete(busy, key)
+		rec := g.record(n)
+		if len(rec.omitted) > 0 {
+			g.fail("reflect.DeepEqual on %s, which has fields outside the subset", key)
+		}
+		var parts []string
+		for _, f := range rec.fields {
+			parts = append(parts, "("+g.deepEqb(f.typ, sub, busy)+" ("+f.name+" a) ("+f.name+" b))")
+		}
+		if len(parts) == 0 {
+			ty := g.typ(t, sub)
+			return "(fun (_ : " + ty + ") (_ : " + ty + ") => true)"
+		}
+		ty := g.typ(t, sub)
+		return "(fun (a : " + ty + ") (b : " + ty + ") => " + strings.Join(parts, " && ") + ")"
+	}
+	g.fail("reflect.DeepEqual on a value of type %s", types.TypeString(t, nil))
+	return ""
 }
